@@ -237,3 +237,236 @@ Section Pass.
     unfold pass_k. apply ranges_concat; auto. now apply no_empty_key_filter.
   Qed.
 End Pass.
+
+(* ---------------------------------------------------------------- C25: each key once *)
+Lemma key_is_true k e : key_is k e = true <-> e_key e = k.
+Proof. unfold key_is. apply bytes_eqb_eq. Qed.
+Lemma key_is_false k e : key_is k e = false <-> e_key e <> k.
+Proof.
+  unfold key_is. split.
+  - intros H E. subst k. rewrite bytes_eqb_refl in H. discriminate.
+  - intros H. destruct (bytes_eqb (e_key e) k) eqn:E; auto. apply bytes_eqb_eq in E. contradiction.
+Qed.
+
+(* in a sorted view the versions of the first key are a prefix of the list *)
+Lemma run_split e r : StronglySorted ent_lt (e :: r) ->
+  exists g rest, r = g ++ rest /\ Forall (fun y => key_is (e_key e) y = true) g
+                 /\ Forall (fun y => key_is (e_key e) y = false) rest.
+Proof.
+  induction r as [|y r IH]; intros Hs; [exists [], []; auto|].
+  inversion Hs as [|? ? Hs' Hx]; subst. inversion Hx as [|? ? Hy Hx']; subst.
+  inversion Hs' as [|? ? Hs'' Hyx]; subst.
+  destruct (key_is (e_key e) y) eqn:Ek.
+  - destruct IH as (g & rest & Hr & Hg & Hrest); [constructor; auto|].
+    exists (y :: g), rest. subst r. repeat split; auto.
+  - exists [], (y :: r). repeat split; auto. constructor; auto.
+    apply key_is_false in Ek. pose proof (ent_lt_key_le _ _ Hy) as Hle.
+    assert (Hlt: lex_cmp (e_key e) (e_key y) = Lt).
+    { destruct (lex_cmp (e_key e) (e_key y)) eqn:E; try congruence. apply lex_cmp_eq in E. congruence. }
+    rewrite Forall_forall in *. intros z Hz. apply key_is_false. intros Ez.
+    pose proof (lex_lt_le_trans _ _ _ Hlt (ent_lt_key_le _ _ (Hyx z Hz))) as H.
+    rewrite Ez, lex_cmp_refl in H. discriminate.
+Qed.
+
+Section KeyOnce.
+  Variable ktl : bytes -> list entry -> option (list entry) * list entry.
+  Variable choose : entry -> bool.
+  Hypothesis ktl_local_ok : forall k g rest,
+    Forall (fun e => key_is k e = true) g -> other_head k rest ->
+    fst (ktl k (g ++ rest)) = fst (ktl k g).
+
+  (* what one pass must deliver for key k, from the versions of k it is shown (newest first) *)
+  Definition delivered_for (V : list entry) (k : bytes) (l : list entry) : Prop :=
+    exists e vs, filter (key_is k) V = e :: vs /\ choose e = true /\ fst (ktl k (e :: vs)) = Some l /\ l <> [].
+
+  Lemma in_deliver e its k l :
+    In (k, l) (deliver ktl choose e its) <->
+    k = e_key e /\ choose e = true /\ fst (ktl (e_key e) its) = Some l /\ l <> [].
+  Proof.
+    unfold deliver. destruct (choose e); [|split; [contradiction|intros (_ & H & _); discriminate]].
+    destruct (fst (ktl (e_key e) its)) as [[|x t]|]; cbn.
+    - split; [contradiction|]. intros (_ & _ & [= <-] & H). congruence.
+    - split.
+      + intros [[= <- <-]|[]]. repeat split; auto. discriminate.
+      + intros (-> & _ & [= <-] & _). now left.
+    - split; [contradiction|]. intros (_ & _ & H & _). discriminate.
+  Qed.
+
+  Lemma produce_k_iff V : StronglySorted ent_lt V -> no_empty_key V -> forall prev,
+    (prev = [] \/ Forall (fun e => lex_cmp prev (e_key e) <> Gt) V) ->
+    forall k l, In (k, l) (produce_k ktl choose [] V prev) <-> (k <> prev /\ delivered_for V k l).
+  Proof.
+    induction 1 as [|e r Hs IH Hx]; intros Hne prev Hp k l.
+    - cbn. split; [contradiction|]. intros (_ & e & vs & H & _). discriminate.
+    - inversion Hne as [|? ? He Hne']; subst.
+      assert (Hr_ge: Forall (fun y => lex_cmp (e_key e) (e_key y) <> Gt) r).
+      { rewrite Forall_forall in *. intros y Hy. apply ent_lt_key_le. now apply Hx. }
+      cbn [produce_k]. destruct (bytes_eqb (e_key e) prev) eqn:Ep.
+      + (* further version of the previous key *)
+        apply bytes_eqb_eq in Ep.
+        assert (Hp': prev = [] \/ Forall (fun y => lex_cmp prev (e_key y) <> Gt) r).
+        { right. rewrite <- Ep. exact Hr_ge. }
+        rewrite (IH Hne' prev Hp' k l). unfold delivered_for. cbn [filter].
+        split; intros (Hk & H); split; auto.
+        * assert (E: key_is k e = false) by (apply key_is_false; congruence). now rewrite E.
+        * assert (E: key_is k e = false) by (apply key_is_false; congruence). now rewrite E in H.
+      + (* a new key *)
+        rewrite past_right_nil. rewrite in_app_iff, in_deliver.
+        rewrite (IH Hne' (e_key e) (or_intror Hr_ge) k l).
+        assert (Hpne: e_key e <> prev).
+        { intros E. rewrite E, bytes_eqb_refl in Ep. discriminate. }
+        destruct (run_split e r (SSorted_cons e Hs Hx)) as (g & rest & Hr & Hg & Hrest).
+        assert (Hfil: filter (key_is (e_key e)) r = g).
+        { rewrite Hr, filter_app, (filter_all _ g Hg), (filter_none _ rest Hrest). apply app_nil_r. }
+        assert (Hloc: fst (ktl (e_key e) (e :: r)) = fst (ktl (e_key e) (e :: g))).
+        { rewrite Hr. change (e :: g ++ rest) with ((e :: g) ++ rest). apply ktl_local_ok.
+          - constructor; auto. apply key_is_true. reflexivity.
+          - destruct rest as [|z rest']; cbn; auto. now inversion Hrest. }
+        unfold delivered_for. cbn [filter].
+        destruct (key_is k e) eqn:Eke.
+        * apply key_is_true in Eke. subst k. rewrite Hfil. split.
+          -- intros [(_ & Hc & Hf & Hl)|(Hk & _)]; [|congruence].
+             split; auto. exists e, g. rewrite <- Hloc. auto.
+          -- intros (_ & e0 & vs & [= <- <-] & Hc & Hf & Hl). left. rewrite Hloc. auto.
+        * apply key_is_false in Eke. split.
+          -- intros [(Hk & _)|(Hk & e0 & vs & Hf & H)]; [congruence|].
+             split; [|exists e0, vs; auto].
+             (* k is a key of r, hence above prev *)
+             assert (Hin: In e0 r).
+             { assert (In e0 (filter (key_is k) r)) by (rewrite Hf; now left). apply filter_In in H0. tauto. }
+             assert (Hk0: e_key e0 = k).
+             { assert (In e0 (filter (key_is k) r)) by (rewrite Hf; now left). apply filter_In in H0.
+               apply key_is_true. tauto. }
+             destruct Hp as [->|Hp].
+             ++ rewrite Forall_forall in Hne'. specialize (Hne' e0 Hin). congruence.
+             ++ inversion Hp as [|? ? Hpe _]; subst.
+                assert (Hlt: lex_cmp prev (e_key e) = Lt).
+                { destruct (lex_cmp prev (e_key e)) eqn:E; try congruence. apply lex_cmp_eq in E. congruence. }
+                rewrite Forall_forall in Hr_ge.
+                pose proof (lex_lt_le_trans _ _ _ Hlt (Hr_ge e0 Hin)) as H1.
+                intros E. rewrite <- E, lex_cmp_refl in H1. discriminate.
+          -- intros (Hk & e0 & vs & Hf & H). right. split; [congruence|]. exists e0, vs. auto.
+  Qed.
+
+  (* the delivered keys are strictly increasing: no key is delivered twice *)
+  Lemma produce_k_keys_sorted V : StronglySorted ent_lt V -> forall prev,
+    (prev = [] \/ Forall (fun e => lex_cmp prev (e_key e) <> Gt) V) -> no_empty_key V ->
+    StronglySorted (fun a b => lex_cmp a b = Lt) (map fst (produce_k ktl choose [] V prev))
+    /\ Forall (fun a => a <> prev /\ (prev = [] \/ lex_cmp prev a <> Gt)) (map fst (produce_k ktl choose [] V prev)).
+  Proof.
+    induction 1 as [|e r Hs IH Hx]; intros prev Hp Hne; [cbn; split; constructor|].
+    inversion Hne as [|? ? He Hne']; subst.
+    assert (Hr_ge: Forall (fun y => lex_cmp (e_key e) (e_key y) <> Gt) r).
+    { rewrite Forall_forall in *. intros y Hy. apply ent_lt_key_le. now apply Hx. }
+    cbn [produce_k]. destruct (bytes_eqb (e_key e) prev) eqn:Ep.
+    - apply bytes_eqb_eq in Ep. apply IH; auto. right. rewrite <- Ep. exact Hr_ge.
+    - rewrite past_right_nil.
+      assert (Hpne: e_key e <> prev) by (intros E; rewrite E, bytes_eqb_refl in Ep; discriminate).
+      destruct (IH (e_key e) (or_intror Hr_ge) Hne') as (IHs & IHf).
+      assert (Hple: prev = [] \/ lex_cmp prev (e_key e) <> Gt).
+      { destruct Hp as [Hp|Hp]; [now left|right]. now inversion Hp. }
+      assert (Hrest: Forall (fun a => a <> prev /\ (prev = [] \/ lex_cmp prev a <> Gt))
+                            (map fst (produce_k ktl choose [] r (e_key e)))).
+      { rewrite Forall_forall in *. intros a Ha. destruct (IHf a Ha) as (Hae & [Hnil|Hle]); [congruence|].
+        destruct Hple as [->|Hple].
+        - split; [|now left]. intros ->.
+          assert (E: lex_cmp (e_key e) [] <> Gt) by exact Hle.
+          destruct (e_key e); [congruence|cbn in E; congruence].
+        - split; [|right; eapply lex_le_trans; eauto].
+          assert (Hlt: lex_cmp prev (e_key e) = Lt).
+          { destruct (lex_cmp prev (e_key e)) eqn:E; try congruence. apply lex_cmp_eq in E. congruence. }
+          pose proof (lex_lt_le_trans _ _ _ Hlt Hle) as H1. intros E. rewrite E, lex_cmp_refl in H1. discriminate. }
+      rewrite map_app. unfold deliver.
+      destruct (choose e); cbn [map app]; [|split; auto].
+      assert (Hhd: Forall (fun a => lex_cmp (e_key e) a = Lt) (map fst (produce_k ktl choose [] r (e_key e)))).
+      { rewrite Forall_forall in *. intros a Ha. destruct (IHf a Ha) as (Hae & [Hnil|Hle]); [congruence|].
+        destruct (lex_cmp (e_key e) a) eqn:E; try congruence. apply lex_cmp_eq in E. congruence. }
+      destruct (fst (ktl (e_key e) (e :: r))) as [[|x t]|]; cbn [map app fst]; split; auto;
+        constructor; auto.
+  Qed.
+End KeyOnce.
+
+(* ---------------------------------------------------------------- C25 assembled *)
+Section PassTheorems.
+  Variable prefix : bytes.
+  Variable since now : N.
+  Variable banned : bytes -> bool.
+  Variable kd : ktl_kind.
+  Variable choose : entry -> bool.
+  Let ktl := key_to_list kd now.
+
+  Theorem pass_key_once rts m : view_ok m -> no_empty_key m ->
+    let V := shown_items prefix since rts banned m in
+    exists pairs,
+      produce_range prefix since now banned kd choose rts m ([], []) = map snd pairs
+      /\ StronglySorted (fun a b => lex_cmp a b = Lt) (map fst pairs)
+      /\ forall k l, In (k, l) pairs <-> delivered_for ktl choose V k l.
+  Proof.
+    intros Hm Hne V. exists (pass_k prefix since now banned kd choose rts m ([], [])).
+    assert (HV: StronglySorted ent_lt V) by (apply sorted_filter; exact Hm).
+    assert (HVne: no_empty_key V) by (apply no_empty_key_filter; exact Hne).
+    split; [apply produce_range_k; auto|].
+    unfold pass_k, range_k. cbn [fst snd]. rewrite dW_nil. fold V. fold ktl.
+    split.
+    - apply (produce_k_keys_sorted ktl choose V HV [] (or_introl eq_refl) HVne).
+    - intros k l.
+      rewrite (produce_k_iff ktl choose (fun k g rest => ktl_local kd now k g rest) V HV HVne [] (or_introl eq_refl) k l).
+      split; [tauto|]. intros H. split; auto.
+      destruct H as (e & vs & Hf & _).
+      assert (Hin: In e (filter (key_is k) V)) by (rewrite Hf; now left).
+      apply filter_In in Hin. destruct Hin as (Hin & Hk). apply key_is_true in Hk.
+      unfold no_empty_key in HVne. rewrite Forall_forall in HVne. specialize (HVne e Hin). congruence.
+  Qed.
+
+  (* producers that are shown the same items deliver one snapshot, whatever the split *)
+  Theorem run_reads_one_snapshot (rs : list ((bytes * bytes) * (N * src))) r m ks :
+    view_ok m -> no_empty_key m -> splits_ok prefix ks = true ->
+    map fst rs = ranges ks ->
+    (forall x, In x rs -> view_ok (snd (snd x)) /\
+       shown_items prefix since (fst (snd x)) banned (snd (snd x)) = shown_items prefix since r banned m) ->
+    run_reads prefix since now banned kd choose rs
+    = produce_range prefix since now banned kd choose r m ([], []).
+  Proof.
+    intros Hm Hne Hok Hrs Hsame.
+    rewrite <- (stream_pass_partition prefix since now banned kd choose r m ks Hm Hne Hok).
+    unfold run_reads, stream_pass. rewrite <- Hrs. rewrite map_map. f_equal.
+    apply map_ext_in. intros x Hx. destruct (Hsame x Hx) as (Hv & Hs).
+    destruct (splits_ok_spec _ _ Hok) as (_ & _ & Hp).
+    pose proof (ranges_from_lefts prefix ks Hp [] (or_introl eq_refl)) as Hl.
+    fold (ranges ks) in Hl. rewrite <- Hrs in Hl. rewrite Forall_forall in Hl.
+    assert (Hlx: fst (fst x) = [] \/ is_prefix prefix (fst (fst x)) = true).
+    { apply Hl. now apply in_map. }
+    rewrite (produce_range_k prefix since now banned kd choose _ _ (fst x) Hv Hlx).
+    rewrite (produce_range_k prefix since now banned kd choose r m (fst x) Hm Hlx).
+    unfold pass_k. now rewrite Hs.
+  Qed.
+
+  (* what a producer is shown only depends on the entries at or below its read timestamp *)
+  Lemma shown_items_below rts m :
+    shown_items prefix since rts banned m
+    = filter (shown prefix since rts banned) (filter (fun e => e_ver e <=? rts) m).
+  Proof.
+    unfold shown_items. rewrite filter_filter. apply filter_ext_in'. intros e _.
+    destruct (e_ver e <=? rts) eqn:E; [reflexivity|]. cbn [andb].
+    apply N.leb_gt in E. unfold shown, skip_common. apply N.ltb_lt in E. rewrite E.
+    rewrite !orb_true_r. cbn. apply andb_false_r.
+  Qed.
+
+  Corollary shown_items_stable r m m' :
+    filter (fun e => e_ver e <=? r) m' = filter (fun e => e_ver e <=? r) m ->
+    shown_items prefix since r banned m' = shown_items prefix since r banned m.
+  Proof. intros H. rewrite (shown_items_below r m'), (shown_items_below r m). now rewrite H. Qed.
+
+  (* and not on the read timestamp itself once it is above every version in the view *)
+  Lemma shown_items_above r1 r2 m :
+    Forall (fun e => e_ver e <= r1) m -> r1 <= r2 ->
+    shown_items prefix since r2 banned m = shown_items prefix since r1 banned m.
+  Proof.
+    intros Hf Hle. unfold shown_items. apply filter_ext_in'. intros e He.
+    rewrite Forall_forall in Hf. specialize (Hf e He).
+    unfold shown, skip_common.
+    assert (E1: (r1 <? e_ver e) = false) by (apply N.ltb_ge; lia).
+    assert (E2: (r2 <? e_ver e) = false) by (apply N.ltb_ge; lia).
+    now rewrite E1, E2.
+  Qed.
+End PassTheorems.
